@@ -12,7 +12,7 @@ LEAN_TARGETS = ['VivProps.C05']
 DRIVER = 'Sched'
 REQUIRED_THEOREMS = ['sequential_first', 'dependency_in_earlier_layer', 'step_in_one_layer',
                      'phase_runs_each_step_once', 'layer_same_view', 'phase_placement',
-                     'phase_at_construction', 'layered_steps_are_nodes']
+                     'phase_at_construction', 'layered_steps_are_nodes', 'every_step_layered']
 ANCHORS = sched_prop.ENGINE_ANCHORS + [
     ('vivarium/core/engine.py', ['_StepGraph.add', '_StepGraph.add_sequential', '_StepGraph._validate',
                                  '_StepGraph.get_execution_layers', '_StepGraph.remove',
